@@ -92,26 +92,38 @@ package decoder
 //@   loop 2: decreases len(buf) - cursor
 
 //@ func (*intDecoder).parseInt(d, b) (r, err)
-//@   props C16
+//@   props C16 C04
+// Glue of the signed round trip for non-negative values (C04): what encoder.AppendInt guarantees for x >= 0 (canonUint) is what
+// intDecoder.Decode needs in order not to report an error and to store x.
+//@   lemma[C04] roundtripIntNonNeg: forall s, c, v, kind :: (0 <= s && s < c && c <= len(b) && c - s <= 20 && digitsAt(b, s, c) && (b[s] == '0' ==> c == s+1) && decvalN(b[s:c], c - s) == v && 0 <= v && fitsInt(v, kind)) ==> (jsonIntTok(b, s, c) && !(c - s > 19 || !fitsInt(decvalN(b[s:c], c - s), kind)))
 //@   requires len(b) >= 1
 //@   requires tokChars(b, 0, len(b))
 //@   ensures err == nil && b[0] == '-' ==> len(b) >= 2 && len(b) <= 20 && r == 0 - decvalN(b[1:], len(b)-1)
 //@   ensures err == nil && b[0] != '-' ==> len(b) <= 19 && r == decvalN(b, len(b))
+// completeness: a canonical literal whose value fits int64 is never an error (needed for the round trip, C04)
+//@   ensures b[0] != '-' && len(b) <= 19 && (len(b) == 1 || b[0] != '0') && decvalN(b, len(b)) <= 9223372036854775807 ==> err == nil
+//@   ensures b[0] == '-' && len(b) >= 2 && len(b) <= 20 && (len(b) == 2 || b[1] != '0') && decvalN(b[1:], len(b)-1) <= 9223372036854775808 ==> err == nil
 //@   assigns nothing
 //@   loop 1: unroll 19
 //@   split len(b) in 1..21
 
 //@ func (*uintDecoder).parseUint(d, b) (r, err)
-//@   props C16
+//@   props C16 C04
+// Glue of the unsigned round trip (C04), for every slice b and all positions: what encoder.AppendUint guarantees about the
+// text it appends (canonUint there: digits only, no leading zero, at most 20 of them, decimal value v) is what the decoder
+// side needs: the scanner's token shape, and the two conditions under which uintDecoder.Decode cannot report an error.
+//@   lemma[C04] roundtripUint: forall s, c, v, kind :: (0 <= s && s < c && c <= len(b) && c - s <= 20 && digitsAt(b, s, c) && (b[s] == '0' ==> c == s+1) && decvalN(b[s:c], c - s) == v && fitsUint(v, kind)) ==> (jsonUintTok(b, s, c) && !(c - s > 20 || !fitsUint(decvalN(b[s:c], c - s), kind)))
 //@   requires len(b) >= 1
 //@   requires digitsAt(b, 0, len(b))
 //@   ensures err == nil ==> len(b) <= 20 && r == decvalN(b, len(b))
+// completeness: a canonical literal (no leading zero) of at most 20 digits whose value fits 64 bits is never an error (needed for the round trip, C04)
+//@   ensures len(b) <= 20 && (len(b) == 1 || b[0] != '0') && decvalN(b, len(b)) <= 18446744073709551615 ==> err == nil
 //@   assigns nothing
 //@   loop 1: unroll 20
 //@   split len(b) in 1..21
 
 //@ func (*intDecoder).decodeByte(d, buf, cursor) (res, c, err)
-//@   props C16 C05 C06
+//@   props C16 C05 C06 C04
 //@   requires d != nil && bufOK(buf, cursor)
 //@   ensures err == nil ==> cursor < c && c < len(buf)
 //@   ensures err == nil && res == nil ==> c >= cursor+4 && wsRun(buf, cursor, c-4) && buf[c-4] == 'n' && buf[c-3] == 'u' && buf[c-2] == 'l' && buf[c-1] == 'l'
@@ -119,6 +131,8 @@ package decoder
 //@   ensures err == nil && res != nil ==> jsonIntTok(buf, c - len(res), c) && (digit(buf[c]) ==> zeroTok(buf, c - len(res)))
 //@   ensures err == nil && res != nil ==> ptrOf(res) == ptrOf(buf) + (c - len(res)) || (len(res) == 1 && res[0] == '0' && buf[c-1] == '0')
 //@   ensures err == nil && res != nil ==> tokChars(res, 0, len(res))
+// completeness: a text that starts with a digit is always scanned (C04)
+//@   ensures digit(buf[cursor]) ==> err == nil && res != nil
 //@   assigns nothing
 //@   loop 1: invariant old(cursor) <= cursor && cursor < len(buf) && wsRun(buf, old(cursor), cursor)
 //@   loop 1: decreases len(buf) - cursor
@@ -126,7 +140,7 @@ package decoder
 //@   loop 2: decreases len(buf) - cursor
 
 //@ func (*intDecoder).Decode(d, ctx, cursor, depth, p) (c, err)
-//@   props C16 C06
+//@   props C16 C06 C04
 //@   requires d != nil && ctx != nil && bufOK(ctx.Buf, cursor)
 //@   ensures err != nil ==> ncalls("intDecoder.op") == old(ncalls("intDecoder.op"))
 //@   ensures err == nil ==> cursor < c && c < len(old(ctx.Buf))
@@ -135,10 +149,15 @@ package decoder
 //@   ghost s := cursor - len(bytes)
 //@   ensures err == nil && ncalls("intDecoder.op") != old(ncalls("intDecoder.op")) ==> cursor <= s && s < c && old(wsRun(ctx.Buf, cursor, s) && jsonIntTok(ctx.Buf, s, c))
 //@   ensures err == nil && ncalls("intDecoder.op") != old(ncalls("intDecoder.op")) ==> callarg("intDecoder.op", 2) == old(intvalOf(ctx.Buf[s:c]))
+// completeness (C04, non-negative texts): a text that starts with a digit is an error only if its token has more than 19 digits or its value does not fit the destination kind
+//@   ghost tn := len(bytes)
+//@   ghost tv := decvalN(bytes, len(bytes))
+//@   ensures err != nil && digit(old(ctx.Buf[cursor])) ==> tn > 19 || !fitsInt(tv, old(d.kind))
+//@   ensures err == nil && digit(old(ctx.Buf[cursor])) ==> ncalls("intDecoder.op") == old(ncalls("intDecoder.op")) + 1
 //@   assigns all
 
 //@ func (*uintDecoder).decodeByte(d, buf, cursor) (res, c, err)
-//@   props C16 C05 C06
+//@   props C16 C05 C06 C04
 //@   requires d != nil && bufOK(buf, cursor)
 //@   ensures err == nil ==> cursor < c && c < len(buf)
 //@   ensures err == nil && res == nil ==> c >= cursor+4 && wsRun(buf, cursor, c-4) && buf[c-4] == 'n' && buf[c-3] == 'u' && buf[c-2] == 'l' && buf[c-1] == 'l'
@@ -146,6 +165,8 @@ package decoder
 //@   ensures err == nil && res != nil ==> jsonUintTok(buf, c - len(res), c) && (digit(buf[c]) ==> buf[c - len(res)] == '0')
 //@   ensures err == nil && res != nil ==> ptrOf(res) == ptrOf(buf) + (c - len(res)) || (len(res) == 1 && res[0] == '0' && buf[c-1] == '0')
 //@   ensures err == nil && res != nil ==> digitsAt(res, 0, len(res))
+// completeness: a text that starts with a digit is always scanned (C04)
+//@   ensures digit(buf[cursor]) ==> err == nil && res != nil
 //@   assigns nothing
 //@   loop 1: invariant old(cursor) <= cursor && cursor < len(buf) && wsRun(buf, old(cursor), cursor)
 //@   loop 1: decreases len(buf) - cursor
@@ -153,7 +174,7 @@ package decoder
 //@   loop 2: decreases len(buf) - cursor
 
 //@ func (*uintDecoder).Decode(d, ctx, cursor, depth, p) (c, err)
-//@   props C16 C06
+//@   props C16 C06 C04
 //@   requires d != nil && ctx != nil && bufOK(ctx.Buf, cursor)
 //@   ensures err != nil ==> ncalls("uintDecoder.op") == old(ncalls("uintDecoder.op"))
 //@   ensures err == nil ==> cursor < c && c < len(old(ctx.Buf))
@@ -162,6 +183,11 @@ package decoder
 //@   ghost s := cursor - len(bytes)
 //@   ensures err == nil && ncalls("uintDecoder.op") != old(ncalls("uintDecoder.op")) ==> cursor <= s && s < c && old(wsRun(ctx.Buf, cursor, s) && jsonUintTok(ctx.Buf, s, c))
 //@   ensures err == nil && ncalls("uintDecoder.op") != old(ncalls("uintDecoder.op")) ==> callarg("uintDecoder.op", 2) == old(decvalN(ctx.Buf[s:c], c - s))
+// completeness (C04): a text that starts with a digit is an error only if its token has more than 20 digits or its value does not fit the destination kind
+//@   ghost tn := len(bytes)
+//@   ghost tv := decvalN(bytes, len(bytes))
+//@   ensures err != nil && digit(old(ctx.Buf[cursor])) ==> tn > 20 || !fitsUint(tv, old(d.kind))
+//@   ensures err == nil && digit(old(ctx.Buf[cursor])) ==> ncalls("uintDecoder.op") == old(ncalls("uintDecoder.op")) + 1
 //@   assigns all
 
 // ---------------------------------------------------------------- type -> decoder cache (C14)
